@@ -13,9 +13,9 @@ FORMAL = {'N': 'North', 'E': 'East', 'S': 'South', 'W': 'West'}
 # worker processes only: the parent's multiprocessing.Pool must keep the real primitives.
 
 TITLE = 'An aborted session still leaves a well-formed log of the completed boards'
-LEAN_TARGETS = ['BridgeVerif.Props.C13', 'BridgeVerif.Translated.ThreadsMainF', 'BridgeVerif.Translated.ThreadsMainG']
-AUDIT_PROPS = ['C13', 'Translated.ThreadsMainF', 'Translated.ThreadsMainG', 'Translated.MsgParsersE', 'Translated.MsgParsersF']
-REQUIRED = ['Translated.ThreadsMainF.main_bidding_unparseable_raises', 'Translated.ThreadsMainG.main_card_unparseable_raises', 'Translated.ThreadsMainG.main_trick_unparseable_raises', 'Translated.MsgParsersE.parse_card_refuses', 'Translated.MsgParsersF.parse_bid_refuses', 'abort_closes_writer', 'aborted_log_is_wellformed', 'aborted_log_reads_back', 'unclosed_log_not_json_old',
+LEAN_TARGETS = ['BridgeVerif.Props.C13', 'BridgeVerif.Translated.ThreadsMainF', 'BridgeVerif.Translated.ThreadsMainG', 'BridgeVerif.Translated.ThreadsMainH']
+AUDIT_PROPS = ['C13', 'Translated.ThreadsMainF', 'Translated.ThreadsMainG', 'Translated.ThreadsMainH', 'Translated.MsgParsersE', 'Translated.MsgParsersF']
+REQUIRED = ['Translated.ThreadsMainF.main_bidding_unparseable_raises', 'Translated.ThreadsMainG.main_card_unparseable_raises', 'Translated.ThreadsMainG.main_trick_unparseable_raises', 'Translated.ThreadsMainH.main_playing_unparseable_raises', 'Translated.MsgParsersE.parse_card_refuses', 'Translated.MsgParsersF.parse_bid_refuses', 'abort_closes_writer', 'aborted_log_is_wellformed', 'aborted_log_reads_back', 'unclosed_log_not_json_old',
             'session_records_are_wellformed']
 SHARDS = {'quick': 4, 'thorough': 16}
 RULE = ('fault enumeration on the unmodified threaded Server under the deterministic scheduler: sessions of 1-3 boards in which '
